@@ -9,11 +9,11 @@ LEVEL_TEXT = ("Coq theorems over the SMTP session model for every limit, every s
               "byte-level correspondence with limits 1..65536 and sizes straddling them, the size rule evaluated on the "
               "implementation's own replies and store as the oracle")
 LEVEL_NOTE = ("Coq kernel; extraction; the limit is compared with the un-stuffed payload length (LF line ends as ReadDotBytes yields them), "
-              "the documented 'size including headers'; parser oracles as in C01")
+              "the documented 'size including headers'; oracles as in C01 (net.ParseIP, enmime header decoding)")
 DESIGN_REF = "DESIGN.md §4 C06"
 RULE = ("limits {1,10,100,1000,5000,65536} x bodies padded to limit-2..limit+2, 2x, 10x, with/without/lying/malformed SIZE parameters, several "
         "transactions per connection; distinct = distinct input line; non-trivial = the case contains a 552 reply or a stored message")
-TRUSTED = ["oracle tables for MAIL/RCPT argument parsing and header decoding are computed by the driver with the real functions"]
+TRUSTED = ["net.ParseIP verdicts and enmime header facts (From/To/Subject, parse error) are oracles supplied by the driver from the real functions"]
 ASSUMPTIONS = ["store operations do not fail"]
 NOT_PROVED = []
 
